@@ -280,10 +280,23 @@ def r5_recorded_level_readers(ck):
     ok = lambda fid: fid.endswith("FilePatch::<'a, &'a [u8]>::apply_modify") or "libpatch::analysis::" in fid or "::diagnostics::" in fid or \
         fid.startswith("<libpatch::patch::HunkApplyReport as ")
     bad = sorted(f for f in readers if not ok(f))
+    # a reader that only shows the value (a summary line, a verbose message): followed through locals, struct fields, calls and returns
+    # it reaches nothing but formatted output - no branch, no index, no other function
+    from .. import taint
+    shown = []
+    for f in list(bad):
+        sinks = taint.display_only(prog, [], seed_fields={f: {(HR, "fuzz")}})
+        if not sinks:
+            bad.remove(f)
+            shown.append(f)
+        else:
+            ck.info("C20-R5", "where the recorded level goes in %s" % f, "; ".join("%s (%s)" % (why, fn_.where(node)) for fn_, node, why in sinks[:3]))
     ck.require(not bad and any(f.endswith("apply_modify") for f in readers), "C20-R5", "the level recorded per hunk is read only to replay the hunk",
                "HunkApplyReport::Applied.fuzz is read by %s: for created and deleted files that field holds the fuzz LIMIT, so whatever is "
                "decided from it changes when the limit is raised although the push applied the same way" % bad,
-               prog.fns[bad[0]].where() if bad else None, ok_detail="readers: %s" % sorted(x.split("::")[-1] for x in readers))
+               prog.fns[bad[0]].where() if bad else None,
+               ok_detail="readers: %s%s" % (sorted(x.split("::")[-1] for x in readers if x not in shown),
+                                           ("; only displayed by %s" % sorted(x.split("::")[-1] for x in shown)) if shown else ""))
 
 
 def run(ck):
